@@ -188,6 +188,47 @@ claim("C10",
       "ast protocol rules (ordering/dominance in generator bodies), override census over the class hierarchy, "
       "reaching-definitions mutation check", "§3 C10")
 
+claim("C11",
+      "Clause-level: the columns of rot3(-lon) @ rot2(lat - pi/2) @ rot3(pi) are the geodetic north, west and up unit "
+      "vectors (9 symbolic obligations with quarter-turn shift rules); the geodetic->cartesian closed form and "
+      "e^2 = 2f - f^2 (term algebra); create_station wiring (exactly lat/lon to radians, centre under the parent's "
+      "centre with the offset in the parent's orientation); horizon mask: modulo, exact node, bracket, wrap with x0 = 0 "
+      "and the linear formula; simulated measures are r x legs, theta, phi, r_dot of the topocentric spherical state.",
+      "Not decided: numeric equality with an independent ENU computation, Earth-rotation kinematics of the station "
+      "(C02's clause), azimuth sign convention beyond theta.",
+      "canonical term algebra on rotation products and the geodetic formula + ast wiring rules", "§3 C11")
+
+claim("C17",
+      "Clause-level: QSW and TNW triads by construction (27 symbolic obligations on 3-vectors: unit first axis, unit "
+      "angular momentum third axis, second = third x first, rows in name order); transposition pairing at the seven "
+      "local-axes sites with the state made cartesian in the parent frame first; half-open maneuver windows "
+      "(date, date+step] and [start, stop); orbit2frame wiring; ContinuousMan dv = accel x duration; dkep2dv identities "
+      "(first-order vis-viva, plane-rotation angle, law of cosines, dv_w^2 = dv^2 - dv_t^2).",
+      "Not decided: first-order realisation of Keplerian increments as numbers; 'no later than one step' timing as executed "
+      "(the window tiling makes it once-only given C06's use of the accepted step).",
+      "canonical term algebra on vectors + ast pattern rules at enumerated sites", "§3 C17")
+
+claim("C18",
+      "Wiring clauses + frozen coefficients: velocities of the analytical bodies are centred differences; the Moon and "
+      "Sun direction vectors are the ecliptic->equator rotation of (lambda, phi) (12 symbolic obligations), distance "
+      "wiring, TDB / UT1 time arguments from normalised dates, and the multiset of series coefficients equals the "
+      "committed reference; JPL lookups use the TDB julian date, divide the rate by S_PER_DAY only on the 3-vector arm, "
+      "scale km->m and take the sign from the (centre, target) pair convention; kernel and analytical frames are "
+      "attached to the right parents.",
+      "Not decided: agreement with DE to 0.02 deg / 0.7 deg (the coefficients are frozen from the pinned tree, whose "
+      "agreement the suite tests at sample dates), chaining of kernel segments as numbers.",
+      "term algebra on direction vectors + frozen-constant multisets + ast wiring rules", "§3 C18")
+
+claim("C19",
+      "Clause-level: Lambert's loop is z <- z - F/F' leaving when |F/F'| < tol, with Stumpff functions, y, A and the "
+      "Lagrange coefficients as in Curtis 5.3; ltan2raan o raan2ltan = id modulo one turn with consistent moduli; the "
+      "three arms of sso() solve one relation and that relation makes the J2 node rate read from j2.py equal the mean "
+      "solar rate (term algebra with rational exponents); Walker plane spacing, in-plane spacing and inter-plane phasing "
+      "2 pi f / t for both patterns; beta and the B-plane vectors by construction.",
+      "Not decided: convergence of Lambert in general, metre-level arrival as numbers, F' = dF/dz (dropped: nested "
+      "radicals are outside the normal form).",
+      "canonical term algebra (inverse and sibling identities) + loop-polarity rule + ast pattern rules", "§3 C19")
+
 NOT_YET = "check not built yet in this revision; rules designed in DESIGN.md §3 — claimed once its checker is committed"
 
 ALL = [f"C{i:02d}" for i in range(1, 21)]
